@@ -94,3 +94,35 @@ def check_compression_activation(prog, chk, rule):
         ok = ok and not fl2.nodes_with_call(attr=setter)
         chk.ob(rule, "_auth_trigger:%s" % side, ok, at.loc, "delayed zlib switched on at authentication, only then")
 
+
+
+def check_retest_after_wakeup(prog, chk, rule):
+    """Channel._wait_for_send_window: after every cv.wait() the closed / eof_sent
+    tests are passed again before a window is granted (shared by C22 and C25)."""
+    wf = prog.func("Channel._wait_for_send_window")
+    fw = Flow(prog, wf, implicit=False)
+    sub = fw.nodes(lambda n: n.kind == "stmt" and isinstance(n.ast, ast.AugAssign) and unparse(n.ast.target) == "self.out_window_size")
+    waits = [n for (n, c) in fw.nodes_with_call(name="self.out_buffer_cv.wait")]
+    gc_ = fw.edge_guard(lambda t: unparse(t) == "self.closed", "F")
+    ge_ = fw.edge_guard(lambda t: unparse(t) == "self.eof_sent", "F")
+    ok = bool(sub) and fw.dominated(sub, guard_edge=gc_) and fw.dominated(sub, guard_edge=ge_)
+    chk.ob(rule + ".state-tested-before-grant", "_wait_for_send_window:entry", ok, wf.loc, "no window is granted when closed or eof_sent (from entry)")
+    ok = bool(sub) and bool(waits)
+    for wn in waits:
+        start = [d for (d, lab) in fw.cfg.succ[wn.id]]
+        ok = ok and fw.cfg.dominated([s.id for s in sub], guard_edge=gc_, start=start) and \
+            fw.cfg.dominated([s.id for s in sub], guard_edge=ge_, start=start)
+    chk.ob(rule + ".state-retested-after-wakeup", "_wait_for_send_window:after-wait", ok, wf.loc,
+           "after every cv.wait() the closed/eof_sent tests are passed again before a window is granted")
+    return ok
+
+
+def check_adjust_wakes_all(prog, chk, rule):
+    """Channel._window_adjust notifies every blocked sender under the lock (C19/C20/C25)."""
+    from ..core.locks import LockFlow
+    wa = prog.func("Channel._window_adjust")
+    lw = LockFlow(prog, wa)
+    nt = [n for (n, c) in lw.fl.nodes_with_call(name="self.out_buffer_cv.notify_all")]
+    ok = len(nt) == 1 and lw.holds(nt[0], "self.lock") and lw.fl.exit_dominated(guard_nodes=nt)
+    chk.ob(rule, "_window_adjust", ok, wa.loc, "out_buffer_cv.notify_all() under the lock on every path (a single notify leaves other blocked senders parked)")
+    return ok
